@@ -4,6 +4,50 @@ package dicescript
 
 func init() {
 	vHarnesses["VH_C11_foot"] = VH_C11_foot
+	vHarnesses["VH_C11_seq"] = VH_C11_seq
+}
+
+// what an embedding program can observe of a finished evaluation
+func vC11Observe(vm *Context, err error) string {
+	out := ""
+	if err != nil {
+		out = "error: " + err.Error()
+	} else if vm.Ret != nil {
+		out = vm.Ret.ToRepr()
+	}
+	return out + " | " + vm.GetDetailText() + " | " + vm.Matched + " | " + vm.RestInput + " | " + vAttrsString(vm)
+}
+
+//vh:prop=C11 tiers=quick,thorough sigkeys=a,b summaries=Roll:roll-log budget_s=900 bounds="sequential non-interference for every ordered pair of the 15 entry scenarios on two VMs: after VM A finished, VM B (different language, different program) runs to completion; everything observable of A (value, process text, matched/rest text, variables) is unchanged, and A's next evaluation gives what it gives on a VM that never shared the process with B"
+func VH_C11_seq() {
+	ia := vChoice("a", len(vC11Entries))
+	ib := vChoice("b", len(vC11Entries))
+	mk := func(e int) *Context {
+		var vm *Context
+		if vC11Entries[e].seeded {
+			vm = vSeededVM()
+		} else {
+			vm = vNewVM()
+		}
+		vm.Config.ParseErrorLanguage = vC11Entries[e].lang
+		vm.Config.DiceMinMode = true
+		vm.Config.CallbackSt = func(string, string, *VMValue, *VMValue, string, string) {}
+		return vm
+	}
+	a := mk(ia)
+	ea := a.Run(vC11Entries[ia].src)
+	before := vC11Observe(a, ea)
+	b := mk(ib)
+	eb := b.Run(vC11Entries[ib].src)
+	_ = vC11Observe(b, eb)
+	vReach("ran")
+	vAssert(vC11Observe(a, ea) == before, "finished-evaluation-unchanged-by-another-VM")
+	// A's next evaluation equals that of a VM that ran alone
+	ea2 := a.Run(vC11Entries[ia].src)
+	alone := mk(ia)
+	_ = alone.Run(vC11Entries[ia].src)
+	eal := alone.Run(vC11Entries[ia].src)
+	vAssert(vC11Observe(a, ea2) == vC11Observe(alone, eal), "next-evaluation-as-when-run-alone")
 }
 
 // API entry points as one goroutine would use them, each on its own VM
